@@ -402,7 +402,8 @@ array_diff(void *buf1, void *buf2, uint32 tot_cnt, const char *name1, const char
             i4ptr1 = (int32 *)buf1;
             i4ptr2 = (int32 *)buf2;
             for (i = 0; i < tot_cnt; i++) {
-                i4_diff  = abs(*i4ptr1 - *i4ptr2);
+                /* the difference of two int32 values needs 33 bits; saturate it at INT_MAX */
+                i4_diff  = (int32)MYMIN(llabs((int64_t)*i4ptr1 - (int64_t)*i4ptr2), (long long)INT_MAX);
                 is_fill1 = fill1 && (*i4ptr1 == *((int32 *)fill1));
                 is_fill2 = fill2 && (*i4ptr2 == *((int32 *)fill2));
                 if (!is_fill1 && !is_fill2) {
